@@ -229,6 +229,37 @@ def run_c02(tier, seed):
         validated += 1
         if len(sizes) > 1:
             distinct.add((G.hx(data), tuple(sizes)))
+    # another parser of the same process (another connection, another Server) was fed a malformed or truncated stream just before:
+    # what a parser makes of a well-formed stream does not depend on what other parsers saw.  Run on one processor as well (what a
+    # runtime pool hands back is per processor: with one, the next parser certainly gets what the previous one gave back)
+    import os
+    POISON = [b"+OK\rX\r\n", b"$3\r", b":12\r", b"*2\r\r\n", b"-ERR\r", b"$5\r\nab", b"*3\r\n$1\r", b"+\r", b"*1\r\n:7\rZ"]
+    small = [i for i, (v_, d_, k_, s_) in enumerate(meta) if len(d_) < 3000]
+    pick = small[::max(1, len(small) // (500 if tier == "quick" else 6000))]
+    lines2, meta2 = [], []
+    for j, i in enumerate(pick):
+        lines2.append("%s %s 4" % ("-" if j % 2 else "1,2", G.hx(POISON[j % len(POISON)]))); meta2.append(None)
+        lines2.append(lines[i]); meta2.append(meta[i])
+    for procs in ("1", None):
+        henv = dict(os.environ, GOMAXPROCS=procs) if procs else None
+        impl2, model2, failures2 = vlib.run_pair("parse", [], lines2, shards=6, henv=henv)
+        attribute_failures(chk, "parse", lines2, failures2, lambda l: l[:200])
+        for j, (mt, a) in enumerate(zip(meta2, impl2)):
+            if mt is None or a is None:
+                continue
+            vals, data, kind, sizes = mt
+            exp, off = [], 0
+            for v in vals:
+                off += len(G.encode(v))
+                exp.append("V%d:%s;" % (off, G.tree_text(v)))
+            expect = "".join(exp) + "S"
+            if a != expect:
+                prev = lines2[j - 1].split(" ")
+                chk.violation("neighbour-dependent", "stream of %d values (%d bytes, chunks %s) parsed by a fresh parser right after ANOTHER parser of the process was fed the malformed stream %r%s: "
+                              "parser returned %s, expected %s" % (len(vals), len(data), sizes[:8], bytes.fromhex(prev[1]), " (one processor)" if procs else "", a[:160], expect[:160]),
+                              dict(chunks=sizes, stream_hex=G.hx(data), previous_parser_stream_hex=prev[1], previous_parser_chunks=prev[0], impl=a, expected=expect, gomaxprocs=procs))
+                break
+            validated += 1
     # the same through the server's connection loop (the parser as the server drives it: its reader, its deadlines): requests
     # delivered in arbitrary chunks, with the client pausing between chunks, are answered one by one with the right arguments
     import connlib as CL, cmdgen as CG
@@ -434,6 +465,14 @@ def replay(path):
         mode, line = "encode", r["tree"]
     elif "line" in r:
         mode, line = "parse", r["line"]
+    elif "previous_parser_stream_hex" in r:
+        import os
+        lines = "%s %s 4\n%s %s 16\n" % (r["previous_parser_chunks"], r["previous_parser_stream_hex"], ",".join(map(str, r["chunks"])), r["stream_hex"])
+        env = dict(os.environ, GOMAXPROCS=r["gomaxprocs"]) if r.get("gomaxprocs") else None
+        print("impl  (line 0 = the other parser, line 1 = the stream):\n" + vlib.run_harness(["parse"], lines, env=env)[1].strip()[:2000])
+        print("model:\n" + vlib.run_model(["parse"], lines)[1].strip()[:2000])
+        print("expected for line 1:", r["expected"][:400])
+        return
     elif "chunks" in r:
         mode, line = "parse", "%s %s 16" % (",".join(map(str, r["chunks"])), r["stream_hex"])
     else:
